@@ -2,6 +2,7 @@ package rules
 
 import (
 	"fmt"
+	"go/token"
 	"sort"
 	"strings"
 
@@ -24,6 +25,8 @@ func runC11(r *engine.Run) {
 	r.Rule("WHO-dirtyclear", "the dirty flag doubles as 'not saved yet' for Commit, so stores of dirty=false may be reachable only from entry points that save the node (Commit) or that work on freshly decoded nodes (Deserialize, VerifyBlockProof), not from read-only entry points")
 	r.Rule("DOM-unchanged", "in commit every send of a node's previous hash on the deleted channel is reached only when bytes.Equal(previous hash, the node's new Hash()) tested false: a dirty node that hashes as before is the live node and must not be collected")
 	r.Rule("REF-shared", "storage is addressed, and garbage is collected, by node hash; that is sound only if equal content at two positions cannot be one stored node: some node field set by insert must derive from the walk's prefix (a position component in the hashed state). Otherwise deleting or replacing content at one position collects the node another position still uses")
+	r.Rule("ERR-guard", "see C17, applied to the weighted trie: a failed Save, storage read or batch operation is never turned into success")
+	r.Rule("ERR-dropped", "see C17: the error of every trie / storage operation of the weighted trie is looked at (deliberate drops in the rollback paths are listed with reasons)")
 	r.NotDec = append(r.NotDec, "that a reopened trie is observationally identical (value-level)", "atomicity of the storage engine's batches (the atomic unit by the property's quantifier)")
 	domSave(r)
 	domCreated(r, "DOM-created")
@@ -34,6 +37,7 @@ func runC11(r *engine.Run) {
 	whoDirtyClear(r)
 	domUnchanged(r, "DOM-unchanged")
 	refShared(r, "REF-shared")
+	errGuard(r, "ERR-guard", "ERR-dropped", funcsOfPkg(r, pkgWMPT), 20)
 }
 
 func domSave(r *engine.Run) {
@@ -415,9 +419,19 @@ func domCreated(r *engine.Run, rule string) {
 // dirty but hashes as before (a value changed and changed back between two
 // commits) is the live node, and collecting its hash deletes it.
 func domUnchanged(r *engine.Run, rule string) {
-	f := wfn(r, rule, "commit")
+	total := 0
+	for _, name := range []string{"commit", "Commit"} {
+		total += domUnchangedIn(r, rule, name)
+	}
+	if total < 4 {
+		r.Anchor(rule, fmt.Errorf("unresolved anchor: %d sends on the deleted channel in commit/Commit", total))
+	}
+}
+
+func domUnchangedIn(r *engine.Run, rule, name string) int {
+	f := wfn(r, rule, name)
 	if f == nil {
-		return
+		return 0
 	}
 	var deleteCh ssa.Value
 	for _, p := range f.Params {
@@ -426,14 +440,22 @@ func domUnchanged(r *engine.Run, rule string) {
 		}
 	}
 	if deleteCh == nil {
+		// the exported entry creates the channel and hands it to the collector
+		engine.Instrs(f, func(in ssa.Instruction) {
+			if c, ok := in.(*ssa.Call); ok && c.Call.StaticCallee() != nil && c.Call.StaticCallee().Name() == "collectDeleteAndCreated" && len(c.Call.Args) > 1 {
+				deleteCh = c.Call.Args[1]
+			}
+		})
+	}
+	if deleteCh == nil {
 		r.Anchor(rule, fmt.Errorf("unresolved anchor: deleted channel of %s", fn(f)))
-		return
+		return 0
 	}
 	n := 0
 	o := ord{}
 	engine.Instrs(f, func(in ssa.Instruction) {
 		s, ok := in.(*ssa.Send)
-		if !ok || s.Chan != deleteCh {
+		if !ok || chanCell(s.Chan) != chanCell(deleteCh) {
 			return
 		}
 		n++
@@ -463,9 +485,7 @@ func domUnchanged(r *engine.Run, rule string) {
 		r.Check(good, rule, o.next(fn(f)+"|schedule previous hash"), r.P.Pos(s.Pos()), "reached only when bytes.Equal(previous hash, new Hash()) tested false",
 			"the previous hash of a saved node is scheduled for collection without testing that the hash changed: a node that is dirty but hashes as before is live, and two collection passes later it is deleted from storage")
 	})
-	if n < 3 {
-		r.Anchor(rule, fmt.Errorf("unresolved anchor: %d sends on the deleted channel in commit", n))
-	}
+	return n
 }
 
 // refShared: storage is addressed by node hash and garbage collection deletes by
@@ -586,4 +606,15 @@ func derivesFromBytes(v, target ssa.Value) bool {
 		return false
 	}
 	return walk(v)
+}
+
+// chanCell: a channel variable captured by closures lives in a cell; loads of
+// the same cell name the same channel.
+func chanCell(v ssa.Value) ssa.Value {
+	if u, ok := v.(*ssa.UnOp); ok && u.Op == token.MUL {
+		if al, ok := u.X.(*ssa.Alloc); ok {
+			return al
+		}
+	}
+	return v
 }
